@@ -74,6 +74,35 @@ func main() {
 			st.Count("set:fanout")
 			npat = 0
 		}
+		if si%12 == 3 || (prop == "C09" && si%12 == 6) {
+			// host-extension stream: hostnames that EXTEND each other byte by byte around the host/path
+			// boundary: H, H.x, H-y, Hz (and the same below a parameter label), each with the same paths, plus
+			// path-only fallbacks: the node where host H ends has the edges '-', '.', '/' and letters side by side
+			h0 := hx.Pick(rnd, []string{"shop.example", "a.b", "{t}.shop", "x.{h}.y", "api"})
+			exts := []string{"", ".eu", "-beta", "z", ".eu.x", "-beta.y", ".{r}", "-{s}"}
+			paths := []string{"/", "/foo", "/{id}"}[:rnd.Range(1, 3)]
+			for i := len(exts) - 1; i > 0; i-- {
+				j := rnd.Intn(i + 1)
+				exts[i], exts[j] = exts[j], exts[i]
+			}
+			for _, e := range exts[:rnd.Range(3, len(exts))] {
+				for _, pp := range paths {
+					if _, err := f.Handle(methods[0], h0+e+pp, rt.Rec); err == nil {
+						pats = append(pats, h0+e+pp)
+					}
+				}
+			}
+			if _, err := f.Handle(methods[0], h0+paths[0], rt.Rec); err == nil {
+				pats = append(pats, h0+paths[0])
+			}
+			if rnd.Pct(60) {
+				if _, err := f.Handle(methods[0], paths[0], rt.Rec); err == nil {
+					pats = append(pats, paths[0])
+				}
+			}
+			st.Count("set:host-extension")
+			npat = 0
+		}
 		if si%12 == 9 {
 			// grown stream: a family sharing a prefix with TWO infix catch-alls (one node key holds both, so its
 			// precomputed chain of sub-nodes has two levels), registered one by one, then further writes
